@@ -300,6 +300,7 @@ def main(tier):
     rep = Report(PID, tier, rule="one case = one reachable state (selection prefix) of one instance, judged for distinctness / forbidden items / done-at-quota / bookkeeping; distinct = distinct (environment, instance, prefix)")
     rep.assumptions = [
         "DPP/MDPP run on synthetic chip files (3x3, 4x4) written to /verif/.cache because the real chip data cannot be downloaded; the decap reward simulator is out of scope",
+        "additional parts: generator-made instances with the generator's own mask / distance matrix (DPP, MDPP, FLP incl. 30 locations and unbounded samplers); all selection orders of un-batched DPP / MDPP instances; a depth-first walk in _torchrl_mode that re-steps one state object (FLP, MCP)",
         "the exhaustive per-instance trees use batches whose rows share the quota (the generators never mix quotas); batches with DIFFERENT per-row quotas (FLP, MCP) are stepped separately and judged only up to each row's own quota",
     ]
     seed = seed_from_env()
